@@ -99,4 +99,51 @@ theorem linspace_sorted (a b : Rat) (hab : a ≤ b) (N : Nat) : (linspace a b (N
       mul_le_mul_of_nonneg_right hiN' hstep
     linarith
 
+/-! ### round 6d: the samples in the other order -/
+
+theorem linspace_length (a b : Rat) (N : Nat) : (linspace a b (N + 1)).length = N + 1 := by
+  rw [linspace_eq]; simp
+
+theorem linspace_getElem (a b : Rat) (N i : Nat) (hi : i < (linspace a b (N + 1)).length) :
+    (linspace a b (N + 1))[i] = if i < N then sample a b N i else b := by
+  have hlen := linspace_length a b N
+  rw [List.getElem_of_eq (linspace_eq a b N) hi, List.getElem_append]
+  by_cases h : i < N
+  · simp [h]
+  · have : i = N := by omega
+    subst this
+    simp
+
+/-- `np.linspace(b, a, n)` is `np.linspace(a, b, n)` reversed — exactly, over ℚ (n ≥ 2) -/
+theorem linspace_reverse (a b : Rat) (N : Nat) (hN : 1 ≤ N) :
+    linspace b a (N + 1) = (linspace a b (N + 1)).reverse := by
+  have hNq : (N : Rat) ≠ 0 := by exact_mod_cast (by omega : N ≠ 0)
+  apply List.ext_getElem
+  · rw [List.length_reverse, linspace_length, linspace_length]
+  · intro i h1 h2
+    have hi : i < N + 1 := by rw [linspace_length] at h1; exact h1
+    rw [List.getElem_reverse, linspace_getElem, linspace_getElem, linspace_length]
+    by_cases hiN : i < N
+    · rw [if_pos hiN]
+      by_cases h0 : i = 0
+      · subst h0
+        have : ¬ (N + 1 - 1 - 0 < N) := by omega
+        rw [if_neg this]; simp [sample]
+      · have hlt : N + 1 - 1 - i < N := by omega
+        rw [if_pos hlt]
+        unfold sample
+        have hc : ((N + 1 - 1 - i : Nat) : Rat) = (N : Rat) - (i : Rat) := by
+          have : N + 1 - 1 - i = N - i := by omega
+          rw [this, Nat.cast_sub (by omega)]
+        rw [hc]
+        field_simp
+        ring
+    · have hiN' : i = N := by omega
+      subst hiN'
+      rw [if_neg (lt_irrefl _)]
+      have hlt : i + 1 - 1 - i < i := by omega
+      rw [if_pos hlt]
+      have : i + 1 - 1 - i = 0 := by omega
+      rw [this]; simp [sample]
+
 end CBV.C16
